@@ -47,7 +47,7 @@ var FieldTags = []string{"", "public", "sensitive", "secret",
 
 // Node is a shape descriptor.
 type Node struct {
-	K    string  // leaf kind, or: struct pstruct sstruct spstruct map mapss tmap tstruct stmap
+	K    string  // leaf kind, or: struct pstruct sstruct spstruct map mapss tmap tstruct stmap sptmap
 	Name string  // field name / map key under which the parent holds it
 	Tag  string  // class tag if held as a struct field; Taggable key class for tmap/tstruct entries
 	Kids []*Node // struct fields or map entries, in order
@@ -95,6 +95,10 @@ func keyTag(k string) (class encrypt.DataClassification, op encrypt.FilterOperat
 		class = encrypt.SecretClassification
 	case "sen":
 		class = encrypt.SensitiveClassification
+	case "unk":
+		class = encrypt.DataClassification("confidential") // a classification the library does not know
+	case "mix":
+		class = encrypt.DataClassification("Secret") // wrong case: not a known classification either
 	default:
 		return "", "", false
 	}
@@ -204,6 +208,8 @@ func TypeOf(n *Node) reflect.Type {
 		return tTS
 	case "stmap":
 		return tSTMap
+	case "sptmap":
+		return reflect.SliceOf(reflect.PointerTo(tTMap))
 	}
 	panic("shapes: unknown kind " + n.K)
 }
@@ -398,6 +404,9 @@ func (b *Built) build(n *Node, fate Fate, class string, path []Step) reflect.Val
 	case "stmap":
 		s := []TMap{b.tmap(n, append(append([]Step(nil), path...), Step{Index: 0}))}
 		return reflect.ValueOf(s)
+	case "sptmap":
+		m := b.tmap(n, append(append([]Step(nil), path...), Step{Index: 0}, Step{Deref: true}))
+		return reflect.ValueOf([]*TMap{&m})
 	case "tstruct":
 		ts := &TStruct{Attrs: map[string]interface{}{}}
 		p := append(append([]Step(nil), path...), Step{Deref: true})
